@@ -5,6 +5,7 @@
 # use: git -C /repo apply seeded/<name>/patch.diff; ./check <prop>; git -C /repo checkout -- .
 name=$1; shift
 wt=/tmp/mutrepo-$$
+lane=${VERIF_ALT:-alt}
 git -C /repo worktree add -q --detach $wt HEAD || exit 2
 trap 'git -C /repo worktree remove --force '$wt' 2>/dev/null' EXIT
 git -C $wt apply /verif/seeded/$name/patch.diff || { echo "cannot apply $name"; exit 2; }
